@@ -35,6 +35,10 @@ def run(ctx):
     ncd = countdigits.check(rep, F)
     rep.floor('digit-count obligations', ncd, 2)
     rep.floor('rounding-term call sites', nrt, 2)
+    # every precision rounding of a long operand ends in with_scale_round: its digit positions and the rebuilt integer
+    from rules import position
+    npos = position.check(rep, F)
+    rep.floor('position obligations of with_scale_round', npos, 6)
     # the two-operand sum hands the EXACT sum a + b to the rounding routine on every path
     exact.prepare(F)
     for f in fns:
